@@ -151,6 +151,21 @@ func c20BuildTree(root string, shape string, r gen.R, o c20Opts, big bool) ([]*c
 				return nil, err
 			}
 		}
+	case "htree2":
+		// a directory large enough for a hash tree of two levels: names of 241 bytes, so many that the leaf blocks
+		// outnumber what one index block can point at; e2fsck -fyD then packs every index node but the last full
+		n := map[int64]int{1024: 560, 2048: 2300, 4096: 8800}[bs]
+		if n == 0 {
+			n = 560
+		}
+		os.MkdirAll(filepath.Join(root, "big"), 0o755)
+		add(&c20File{path: "big", dir: true, class: "htree-directory"})
+		for i := 0; i < n; i++ {
+			name := fmt.Sprintf("big/entry-%05d-%s", i, strings.Repeat(string(rune('a'+i%26)), 229))
+			if err := mk(name, []byte(fmt.Sprintf("content of %d", i)), "file-in-two-level-htree-directory"); err != nil {
+				return nil, err
+			}
+		}
 	case "extents", "sparse":
 		// many separate data runs -> many extents -> extent tree with interior nodes
 		for k, nruns := range []int{2, 6, 30, 420} {
@@ -643,10 +658,10 @@ func init() {
 	core.Register(&core.Check{
 		ID:          "C20",
 		Level:       "exploration",
-		Rule:        "host trees (regular files of boundary sizes, a directory of 400 (thorough: 5000) entries later hash-indexed by e2fsck -fyD and then thinned by unlinking every third file with debugfs rm (slots with inode 0 in front of live entries), sparse files with 2/6/30/420 separate data runs so that extent trees get interior nodes, files beginning or ending with a hole, a 5 GiB sparse file with data runs on both sides of the 2 GiB and 4 GiB offsets (verified by seek+read probes of every run, its surroundings and the holes whose offsets alias a run modulo 2^31 and 2^32), fast and slow symlinks, modes/owners/times on every node, in-inode and block xattrs (also with an empty value) set with debugfs ea_set, a preallocated file with an unwritten extent made by debugfs fallocate; the image file is pre-filled with 0xA5 and mke2fs runs with nodiscard) are put into images by the reference mke2fs -d over a fixed option grid: ext4 with block 1k/2k/4k, inode 128/256, ^64bit, ^flex_bg, ^metadata_csum, ^dir_index, ^huge_file, sparse_super2, ^has_journal, plus ext3 and ext2 images without extents; ext4.Read then walks the image with bounded read loops: tree, contents (holes as zeros), sizes, modes, owners, mtimes, link targets and xattrs must equal the input; refusing an image is allowed (except mke2fs's default feature set); per-file errors are allowed only on block-mapped (ext2/ext3) images; wrong data, panics and reads that never finish are violations; non-trivial = an image the library agreed to open; distinct = distinct (options, shape)",
+		Rule:        "host trees (regular files of boundary sizes, a directory of 400 (thorough: 5000) entries later hash-indexed by e2fsck -fyD and then thinned by unlinking every third file with debugfs rm (slots with inode 0 in front of live entries), a directory of 560 (2 KiB blocks: 2300, 4 KiB: 8800) names of 241 bytes indexed by e2fsck -fyD into a hash tree of two levels whose index nodes are packed full, sparse files with 2/6/30/420 separate data runs so that extent trees get interior nodes, files beginning or ending with a hole, a 5 GiB sparse file with data runs on both sides of the 2 GiB and 4 GiB offsets (verified by seek+read probes of every run, its surroundings and the holes whose offsets alias a run modulo 2^31 and 2^32), fast and slow symlinks, modes/owners/times on every node, in-inode and block xattrs (also with an empty value) set with debugfs ea_set, a preallocated file with an unwritten extent made by debugfs fallocate; the image file is pre-filled with 0xA5 and mke2fs runs with nodiscard) are put into images by the reference mke2fs -d over a fixed option grid: ext4 with block 1k/2k/4k, inode 128/256, ^64bit, ^flex_bg, ^metadata_csum, ^dir_index, ^huge_file, sparse_super2, ^has_journal, plus ext3 and ext2 images without extents; ext4.Read then walks the image with bounded read loops: tree, contents (holes as zeros), sizes, modes, owners, mtimes, link targets and xattrs must equal the input; refusing an image is allowed (except mke2fs's default feature set); per-file errors are allowed only on block-mapped (ext2/ext3) images; wrong data, panics and reads that never finish are violations; non-trivial = an image the library agreed to open; distinct = distinct (options, shape)",
 		Assumptions: []string{"mke2fs/debugfs/e2fsck 1.47.0 are the reference producer; every image is verified clean by e2fsck before the library reads it", "the option grid is fixed (not seeded), so the set of findings on a given tree does not depend on VERIF_SEED"},
 		MinSigs:     map[string]int{"quick": 8, "thorough": 40},
-		NeedMarks:   []string{"options default-features", "file class sparse-file-with-data-beyond-4GiB", "directory entries unlinked with debugfs after mke2fs -d", "shape bigdir", "shape extents", "shape links"},
+		NeedMarks:   []string{"options default-features", "file class sparse-file-with-data-beyond-4GiB", "directory entries unlinked with debugfs after mke2fs -d", "shape bigdir", "shape extents", "shape links", "shape htree2"},
 		CPUSec:      900,
 		Cases: func(seed int64, tier string) []core.Case {
 			r := gen.New(0xC20C20) // fixed grid
@@ -657,6 +672,12 @@ func init() {
 			def := c20Opts{Type: "ext4", Block: 4096, Inode: 256, SizeMB: 64, Index: true}
 			for _, sh := range []string{"basic", "bigdir", "extents", "sparse", "links", "xattrs", "huge"} {
 				add(def, sh, tier == "thorough")
+			}
+			add(c20Opts{Type: "ext4", Block: 1024, Inode: 256, SizeMB: 32, Index: true}, "htree2", false)
+			if tier == "thorough" {
+				add(c20Opts{Type: "ext4", Block: 2048, Inode: 256, SizeMB: 64, Index: true}, "htree2", false)
+				add(c20Opts{Type: "ext4", Block: 4096, Inode: 256, SizeMB: 128, Index: true}, "htree2", false)
+				add(c20Opts{Type: "ext4", Block: 1024, Inode: 128, SizeMB: 32, Features: []string{"^metadata_csum"}, Index: true}, "htree2", false)
 			}
 			variants := []c20Opts{
 				{Type: "ext4", Block: 1024, Inode: 256, SizeMB: 32, Index: true},
